@@ -23,8 +23,9 @@ What is extracted (from the CURRENT working tree, with `ast`; nothing is importe
                       a mutating method on `list_chunkmanagers()` (or on a local bound to it),
                       `list_chunkmanagers.cache_clear()`, assignment/`setattr`/`patch("xarray…")` on a
                       xarray module; plus `dask_array._xarray._ensure_registered` by name.
-  canReachSeed        backward closure of registrySeeds in importEdges ∪ callEdges (computed here, but
-                      CHECKED in Lean: closed under reversed edges ⇒ complete, Lemmas/Closure.lean)
+  canReachSeed(Mask)  backward closure of registrySeeds in importEdges ∪ callEdges (computed here, but
+                      CHECKED in Lean: closed under reversed edges ⇒ complete, Lemmas/Closure.lean);
+                      emitted as a list (readable) and as a bitmask literal (what Lean evaluates)
   moduleScopeCallsIntoRegistering   modules that are seeds or have a callEdge into canReachSeed
   importsXarrayAtModuleScope, entryPointGroups (pyproject.toml [project.entry-points.*], setup.cfg)
 
@@ -659,6 +660,11 @@ def to_lean(info) -> str:
     out.append(_pair_list("callEdges", info["callEdges"]))
     out.append(_nat_list("registrySeeds", info["registrySeeds"]))
     out.append(_nat_list("canReachSeed", info["canReachSeed"]))
+    mask = 0
+    for i in info["canReachSeed"]:
+        mask |= 1 << i
+    out.append("/-- `canReachSeed` as a bitmask (bit i set ⇔ node i is in the set): what the Lean checks evaluate -/")
+    out.append(f"def canReachSeedMask : Nat := {mask}\n")
     out.append(_nat_list("moduleScopeCallsIntoRegistering", info["moduleScopeCallsIntoRegistering"]))
     out.append(_nat_list("importsXarrayAtModuleScope", info["importsXarrayAtModuleScope"]))
     out.append(_nat_list("seedModules", info["seedModules"]))
